@@ -32,11 +32,6 @@
 #include <unistd.h>
 using namespace adept;
 
-#ifdef RJHOGAN_ADEPT_2_VERIF
-#ifdef ADEPT_VERIF_HAVE_H4
-namespace adept { namespace internal { extern void (*verif_minimizer_hook)(const char*); } }
-#endif
-#endif
 
 static const double RMAX = std::numeric_limits<double>::max();
 
@@ -230,7 +225,12 @@ static bool algo_of(const std::string& s, MinimizerAlgorithm& a) {
 }
 
 static std::vector<std::string>* g_log = 0;
-static void hook_sink(const char* s) { if (g_log && g_log->size() < 20000) g_log->push_back(s); }
+static void hook_sink(const char* s) {
+  if (!g_log || g_log->size() >= 20000) return;
+  std::string t(s);
+  for (size_t i = 0; i < t.size(); ++i) if (t[i] == ' ') t[i] = '/';   // fields '/'-separated, entries ';'-separated
+  g_log->push_back(t);
+}
 
 static void on_alarm(int) {
   const char msg[] = "R status=NO-TERMINATION alarm=1\n";
